@@ -8,6 +8,9 @@ unset GOSUMDB GONOSUMDB GONOSUMCHECK GOFLAGS GOWORK 2>/dev/null
 export GOTOOLCHAIN=auto GOPROXY=off
 BIN="$VERIF/bin/checker"
 build() {
+  # VERIF_BIN: use a frozen copy of the checker and never rebuild (long sweeps such as tools/seed_matrix.py, so that the
+  # checker sources can be edited meanwhile); registered commands do not set it
+  if [ -n "${VERIF_BIN:-}" ] && [ -x "$VERIF_BIN" ]; then BIN="$VERIF_BIN"; return; fi
   stale=0
   [ -x "$BIN" ] || stale=1
   if [ $stale -eq 0 ] && [ -n "$(find "$VERIF/checker" -newer "$BIN" \( -name '*.go' -o -name 'go.mod' -o -name 'go.sum' \) -print -quit)" ]; then stale=1; fi
